@@ -178,7 +178,7 @@ type vC16View struct {
 	members  []peer.ID
 	isMember map[peer.ID]bool
 	groups   map[peer.ID][]string
-	size     map[string]int // group -> crawled members with an address in it
+	size     map[string]int   // group -> crawled members with an address in it
 	multi    map[peer.ID]bool // member with two addresses inside one group
 	maxGroup int
 }
@@ -322,7 +322,7 @@ func vC16Keys(c *vh.Case, v *vC16View, n int) []string {
 
 func TestVerif_C16_closest(t *testing.T) {
 	vh.Run(t, vh.Spec{Prop: "C16", Unit: "closest", Quick: 400, Thorough: 15000, CostMs: 20,
-		Rule: "FullRT over a fake host with a fake crawler reporting 1-3 successive generated crawl results of 0-3000 peers (layouts: every peer its own /16; groups filled exactly to the limit; 1-3 overfull groups; mixed; legacy /8 blocks, IPv6 AS groups, peers with addresses in two groups, non-IP addresses; a dedicated 1/8 of the cases has peers with two addresses inside one group; peers the public filter must drop), crawls started by the real mechanisms (construction, TriggerRefresh, interval tick) in virtual time; K in {1,2,3,5,8,20}, limit in {0,1,2,3,5,default}; after each completed crawl 3-12 keys are compared with brute force (own XOR arithmetic), mid-crawl queries must still see the previous crawl; non-trivial = more than K crawled peers and limit active with a group at or over the limit, or limit disabled; distinct by (N, K, limit, layout, generation count)",
+		Rule:    "FullRT over a fake host with a fake crawler reporting 1-3 successive generated crawl results of 0-3000 peers (layouts: every peer its own /16; groups filled exactly to the limit; 1-3 overfull groups; mixed; legacy /8 blocks, IPv6 AS groups, peers with addresses in two groups, non-IP addresses; a dedicated 1/8 of the cases has peers with two addresses inside one group; peers the public filter must drop), crawls started by the real mechanisms (construction, TriggerRefresh, interval tick) in virtual time; K in {1,2,3,5,8,20}, limit in {0,1,2,3,5,default}; after each completed crawl 3-12 keys are compared with brute force (own XOR arithmetic), mid-crawl queries must still see the previous crawl; non-trivial = more than K crawled peers and limit active with a group at or over the limit, or limit disabled; distinct by (N, K, limit, layout, generation count)",
 		Clauses: []string{"at-most-k", "distinct", "only-crawled-peers", "ascending", "ipgroup-limit", "exact-when-uncrowded", "table-is-last-crawl", "mid-crawl-serves-previous"}},
 		func(c *vh.Case) {
 			r := c.R
@@ -538,7 +538,7 @@ func newRand(seed int64) *rand.Rand { return rand.New(rand.NewSource(seed)) }
 
 func TestVerifRace_C16_swap(t *testing.T) {
 	vh.Run(t, vh.Spec{Prop: "C16", Unit: "swap", Quick: 40, Thorough: 1500, CostMs: 110, WallS: 300,
-		Rule: "FullRT with a fake crawler; 5-12 generations with pairwise DISJOINT peer sets (each larger than K: 30-500 peers, every peer its own /16, or overfull groups with a limit) are swapped in through TriggerRefresh while 4 reader goroutines call GetClosestPeers on 12 fixed keys in real parallelism under the race detector; every result must consist of peers of one generation, be the brute-force answer for that generation, and the generation seen by one reader never goes back; non-trivial = readers observed at least 3 different generations; distinct by (K, limit, sizes, observed generation sequence)",
+		Rule:    "FullRT with a fake crawler; 5-12 generations with pairwise DISJOINT peer sets (each larger than K: 30-500 peers, every peer its own /16, or overfull groups with a limit) are swapped in through TriggerRefresh while 4 reader goroutines call GetClosestPeers on 12 fixed keys in real parallelism under the race detector; every result must consist of peers of one generation, be the brute-force answer for that generation, and the generation seen by one reader never goes back; non-trivial = readers observed at least 3 different generations; distinct by (K, limit, sizes, observed generation sequence)",
 		Clauses: []string{"swap-single-generation", "swap-correct-for-generation", "swap-monotonic", "swap-final-table"}},
 		func(c *vh.Case) {
 			r := c.R
@@ -723,11 +723,11 @@ func TestVerifRace_C16_swap(t *testing.T) {
 // ---- safety: empty table / missing construction options ---------------------------------------------
 
 type vC16Op struct {
-	Name    string
-	Store   bool // an operation that must not report success when nothing could be stored
-	Lookup  bool // an operation that must report an error when nothing can be found
-	Bulk    bool
-	Run     func(ctx context.Context) (empty bool, err error)
+	Name   string
+	Store  bool // an operation that must not report success when nothing could be stored
+	Lookup bool // an operation that must report an error when nothing can be found
+	Bulk   bool
+	Run    func(ctx context.Context) (empty bool, err error)
 }
 
 // vC16Call runs one operation with panic recovery and a virtual-time measurement.
@@ -785,7 +785,7 @@ func vC16Trim(s string, n int) string {
 func TestVerif_C16_safety(t *testing.T) {
 	vC16StartRealClock()
 	vh.Run(t, vh.Spec{Prop: "C16", Unit: "safety", Quick: 240, Thorough: 8000, CostMs: 8,
-		Rule: "two case kinds. ctor (1/3): NewFullRT on a fake host with a PRNG subset of construction options missing (BootstrapPeers, BucketSize, Validator, crawler, limit, message sender), called under recover, then closed. ops (2/3): an instance whose table stays empty (crawler reporting nothing / only failures / only peers the public filter drops / default crawler with unreachable bootstrap peers; options missing at random; providers or values disabled in some cases) is sent every single and bulk operation (GetClosestPeers, FindPeer, GetValue, SearchValue, PutValue, Provide, FindProviders(Async), ProvideMany, PutMany incl. zero keys and mismatched lengths, CheckPeers, Bootstrap, Ready, Stat) in PRNG order inside a virtual-time bubble, each under recover; a dedicated 1/24 of the ops cases omits BucketSize on a NON-empty table; non-trivial = at least 10 operations returned; distinct by (kind, options, order)",
+		Rule:    "two case kinds. ctor (1/3): NewFullRT on a fake host with a PRNG subset of construction options missing (BootstrapPeers, BucketSize, Validator, crawler, limit, message sender), called under recover, then closed. ops (2/3): an instance whose table stays empty (crawler reporting nothing / only failures / only peers the public filter drops / default crawler with unreachable bootstrap peers; options missing at random; providers or values disabled in some cases) is sent every single and bulk operation (GetClosestPeers, FindPeer, GetValue, SearchValue, PutValue, Provide, FindProviders(Async), ProvideMany, PutMany incl. zero keys and mismatched lengths, CheckPeers, Bootstrap, Ready, Stat) in PRNG order inside a virtual-time bubble, each under recover; a dedicated 1/24 of the ops cases omits BucketSize on a NON-empty table; non-trivial = at least 10 operations returned; distinct by (kind, options, order)",
 		Clauses: []string{"ctor-no-panic", "no-panic", "returns-promptly", "store-on-empty-table-errors", "lookup-on-empty-table-errors", "empty-table-error-or-empty", "channel-closed", "close-returns"}},
 		func(c *vh.Case) {
 			r := c.R
